@@ -240,3 +240,39 @@ func VH_C11_Long() {
 	}
 	vf.Cover("C11.long.end")
 }
+
+// VH_C11_Conc: two goroutines encode and decode at the same time (data blocks, and an index
+// or meta block in between); every round trip is exact and the bytes an encoder returned
+// stay intact while the other goroutine encodes.
+func VH_C11_Conc() {
+	da := Data{Entries: c11entries("a")}
+	db := Data{Entries: c11entries("b")}
+	var encB []byte
+	var errB, decB error
+	var backB Data
+	done := make(chan struct{})
+	go func() {
+		encB, errB = db.Encode()
+		if errB == nil {
+			decB = backB.Decode(encB)
+		}
+		if vf.Param("MORE", 0) == 1 {
+			m := Meta{CreatedUnix: 5, Level: 1}
+			_, _ = m.Encode()
+		}
+		close(done)
+	}()
+	encA, errA := da.Encode()
+	vf.Assert("C11.conc.encode-ok", errA == nil)
+	snapshot := append([]byte(nil), encA...)
+	idx := Index{DataBlock: BlockHandle{Offset: 1, Length: 2}, Entries: []IndexEntry{{StartKey: "x", EndKey: string([]byte{vf.Byte("oe")})}}}
+	_, _ = idx.Encode()
+	<-done
+	vf.Assert("C11.conc.stable", vf.BytesEq(encA, snapshot))
+	var backA Data
+	vf.Assert("C11.conc.decode-ok", backA.Decode(encA) == nil)
+	c11sameEntries("C11.conc.a", backA.Entries, da.Entries)
+	vf.Assert("C11.conc.b-ok", errB == nil && decB == nil)
+	c11sameEntries("C11.conc.b", backB.Entries, db.Entries)
+	vf.Cover("C11.conc.end")
+}
